@@ -450,12 +450,15 @@ class ExecMixin:
                 st.assume(g)
             st.trail.append(f"loop{ordinal}:body")
             self.assign(st, s.target, elem(k))
+            st.ghost.setdefault("__it", []).append(k)
             try:
                 self.exec_block(st, s.body)
             except ContinueSig:
                 pass
             except BreakSig:
+                st.ghost["__it"].pop()
                 return
+            st.ghost["__it"].pop()
             for name, g in inv_at(k + 1, "inv-step"):
                 self.oblige(st, name, g, "inv-step")
             raise PathEnd()
